@@ -14,7 +14,7 @@ MODULES = {
     "C06": ["NSG.Properties.C06", "NSG.Properties.C01Barrier", "NSG.Properties.C06Start", "NSG.Properties.GenAtomic"],
     "C07": ["NSG.Properties.C07", "NSG.Properties.C01Barrier", "NSG.Properties.GenAtomic"],
     "C09": ["NSG.Properties.C09", "NSG.Properties.GenC09"],
-    "C10": ["NSG.Properties.C10", "NSG.Properties.GenC10", "NSG.Properties.GenAtomic"],
+    "C10": ["NSG.Properties.C10", "NSG.Properties.GenC10", "NSG.Properties.GenAtomic", "NSG.Properties.SystemMono"],
     "C16": ["NSG.Properties.C16"],
     "C18": ["NSG.Properties.C18"],
 }
